@@ -24,6 +24,17 @@ def G(n, kinds='all', wraps=('set', 'dir')):
     return 'FamilyG(p, %d, "%s", {%s})' % (n, kinds, ', '.join('"%s"' % w for w in wraps))
 
 
+def only_success(cases):
+    out = []
+    for c in cases:
+        c = json.loads(json.dumps(c))
+        for e in c['expect']:
+            if e.get('scheds'):
+                e['scheds'] = [["", ""]]
+        out.append(c)
+    return out
+
+
 # ------------------------------------------------------------------ C06
 def C06(ctx):
     ctx.rules.append('family G: every digraph on n types x every node kind {provider, injector parameter, absent}; '
@@ -35,6 +46,11 @@ def C06(ctx):
         cases = ctx.sample([c for c in cases if miss(c) or verdict(c) == 'yes'], 700, must=lambda c: False)
     ctx.res.cov['exhaustive'] = not ctx.quick
     ctx.run(cases, nontrivial=miss, runtime=False)
+    ctx.rules.append('family X: a needed type missing behind a binding (directly and two levels down), behind a "*" struct field carrying a foreign struct tag, '
+                     'in the first / second of two injector files of one package; family B/S near misses (no binding for an interface, *F from a value struct)')
+    ctx.run(ctx.export('FamilyX(p, {"star-foreign-tag-missing", "star-foreign-tag-ok", "two-files-first-missing", "two-files-second-missing", "two-files-ok", "missing-behind-bind", "missing-behind-bind-2"})'), nontrivial=miss, runtime=False, check=True)
+    near = [c for c in ctx.export('FamilyB(p)') + ctx.export('FamilyS(p)') if miss(c)]
+    ctx.run(near, nontrivial=miss, runtime=False)
     if not ctx.quick:
         big = ctx.export(G(4), pre_sample=12000)
         big = [c for c in big if miss(c)]
@@ -52,6 +68,14 @@ def C07(ctx):
     ctx.run(cases, nontrivial=cyc, runtime=False)
     big = ctx.export(G(4, 'f', ('set',)), pre_sample=400 if ctx.quick else None)
     ctx.run(big, nontrivial=cyc, runtime=False)
+    ctx.rules.append('split: the providers of every digraph (n=3; sample of n=4 in thorough) distributed over two sets joined by a set without providers of its own; '
+                     'scaling: diamond lattices of depth 10/20/40 (2^40 paths) and chains of depth 50/150, with and without a back edge, each under a 40 s timeout (normal: well under 1 s)')
+    sp = ctx.export('FamilyGSplit(p, 3)', pre_sample=500 if ctx.quick else None)
+    ctx.run(sp, nontrivial=cyc, runtime=False)
+    if not ctx.quick:
+        ctx.run(ctx.export('FamilyGSplit(p, 4)', pre_sample=4000), nontrivial=cyc, runtime=False)
+    sc = ctx.export('FamilyLattice(p, {10, 20, 40})') + ctx.export('FamilyChain(p, {50, 150})')
+    ctx.run(sc, nontrivial=lambda c: True, runtime=False, build=False)
 
 
 # ------------------------------------------------------------------ C02
@@ -64,23 +88,20 @@ def C02(ctx):
     if ctx.quick:
         cases = ctx.sample(cases, 400, must=nt)
     ctx.run(cases, nontrivial=nt, runtime=True, switches=W_ONLY)
+    ctx.rules.append('accepted programs of families R (n<=3, all flavours), B (bindings), S (struct and field providers), M (nested sets over packages), T (variadic injector), '
+                     'X (sets declared in one multi-name var spec, injectors returning an argument, several injectors in several files)')
+    more = ctx.export('FamilyR(p, 3)') + ctx.export('FamilyB(p)') + ctx.export('FamilyS(p)') + ctx.export('FamilyM(p, {1, 2, 3})', pre_sample=200 if ctx.quick else 3000)
+    more = [c for c in more if verdict(c) == 'yes']
+    if ctx.quick:
+        more = ctx.sample(more, 500)
+    more += ctx.export('FamilyX(p, {"multi-name-var-sets", "arg-returned-through-bind", "arg-returned-directly", "two-files-ok", "star-foreign-tag-ok"})')
+    ctx.run(only_success(more), nontrivial=nt, runtime=True, switches=W_ONLY)
     if not ctx.quick:
         big = [c for c in ctx.export(G(4), pre_sample=30000) if verdict(c) == 'yes']
         ctx.run(big, nontrivial=nt, runtime=True, switches=W_ONLY)
 
 
 # ------------------------------------------------------------------ C03 / C04
-def only_success(cases):
-    out = []
-    for c in cases:
-        c = json.loads(json.dumps(c))
-        for e in c['expect']:
-            if e.get('scheds'):
-                e['scheds'] = [["", ""]]
-        out.append(c)
-    return out
-
-
 def n_fault_points(c):
     return sum(1 for s in c['expect'][0].get('scheds', []) if len(s) == 1)
 
@@ -140,6 +161,7 @@ def C05(ctx):
     ctx.res.cov['exhaustive'] = not ctx.quick
     if ctx.quick:
         cases = ctx.sample(cases, 700)
+    cases += ctx.export('FamilyX(p, {"same-set-twice-direct", "same-set-twice-in-set"})')
     ctx.run(cases, runtime=False, check=True)
 
 
@@ -202,6 +224,9 @@ def C11(ctx):
     if ctx.quick:
         cases = ctx.sample(cases, 450)
     ctx.run(cases, runtime=True, switches=W_ONLY)
+    ctx.rules.append('family X: binding an interface to an interface that lacks a method, an injector that returns one of several arguments through a binding without calling any provider, '
+                     'two sets sharing their first import of which only one provides the bound type')
+    ctx.run(ctx.export('FamilyX(p, {"bind-iface-not-implementing", "arg-returned-through-bind", "arg-returned-directly", "shared-import-bind-lacks-concrete", "missing-behind-bind"})'), runtime=True, switches=W_ONLY)
 
 
 # ------------------------------------------------------------------ C12
